@@ -30,8 +30,12 @@ struct World {
     rt: tokio::runtime::Runtime,
     store: UnifiedRecordStore,
     rx_cmd: mpsc::Receiver<LocalSwarmCmd>,
+    tx_cmd: mpsc::Sender<LocalSwarmCmd>,
     _rx_evt: mpsc::Receiver<NetworkEvent>,
     inbox: Vec<LocalSwarmCmd>,
+    /// small command channel, drained only when the case delivers: completions back up behind a
+    /// full channel (their senders wait for capacity) instead of being moved to `inbox` at once
+    lazy: bool,
 }
 
 struct Case {
@@ -39,6 +43,8 @@ struct Case {
     peer: StorePeerId,
     max_records: usize,
     cache_size: usize,
+    max_value_bytes: Option<usize>,
+    chan_cap: usize,
     keys: Vec<Key>,
     vals: Vec<Vec<u8>>,
     dists: Vec<U256>,
@@ -65,23 +71,26 @@ impl Case {
         // as driver.rs build_node: seed = first 16 bytes of the peer id, records under
         // root/record_store, historic quote file under root
         let seed: [u8; 16] = self.peer.to_bytes()[..16].try_into().unwrap();
+        let d = NodeRecordStoreConfig::default();
         NodeRecordStoreConfig {
             storage_dir: self.storage(),
             historic_quote_dir: self.root.clone(),
             max_records: self.max_records,
             records_cache_size: self.cache_size,
             encryption_seed: seed,
-            ..Default::default()
+            max_value_bytes: self.max_value_bytes.unwrap_or(d.max_value_bytes),
         }
     }
 
     fn open(&mut self) -> World {
         let rt = new_rt();
         let (tx_evt, rx_evt) = mpsc::channel(100_000);
-        let (tx_cmd, rx_cmd) = mpsc::channel(100_000);
+        let (tx_cmd, rx_cmd) = mpsc::channel(self.chan_cap.max(1));
+        let lazy = self.chan_cap < 100_000;
         let cfg = self.config();
         let peer = self.peer;
-        let store = rt.block_on(async move { rs::new_node_store(peer, cfg, tx_evt, tx_cmd) });
+        let tx2 = tx_cmd.clone();
+        let store = rt.block_on(async move { rs::new_node_store(peer, cfg, tx_evt, tx2) });
         let ts = rs::start_timestamp(&store);
         let n = self.epochs.len() as u64;
         match self.epochs.iter().position(|e| *e == Some(ts)) {
@@ -94,7 +103,7 @@ impl Case {
                 self.epochs.push(Some(ts));
             }
         }
-        World { rt, store, rx_cmd, _rx_evt: rx_evt, inbox: vec![] }
+        World { rt, store, rx_cmd, tx_cmd, _rx_evt: rx_evt, inbox: vec![], lazy }
     }
 
     fn kix(&self, k: &Key) -> u64 {
@@ -126,6 +135,9 @@ impl Case {
 }
 
 fn drain(w: &mut World) {
+    if w.lazy {
+        return;
+    }
     while let Ok(c) = w.rx_cmd.try_recv() {
         w.inbox.push(c);
     }
@@ -134,6 +146,22 @@ fn drain(w: &mut World) {
 fn step(w: &mut World) {
     w.rt.block_on(async { tokio::task::yield_now().await });
     drain(w);
+}
+
+fn handle_notification(w: &mut World, n: LocalSwarmCmd) {
+    // exactly what handle_local_cmd does with the two store notifications
+    let store = &mut w.store;
+    w.rt.block_on(async {
+        match n {
+            LocalSwarmCmd::AddLocalRecordAsStored { key, record_type } => rs::mark_as_stored(store, key, record_type),
+            LocalSwarmCmd::RemoveFailedLocalRecord { key } => store.remove(&key),
+            _ => {}
+        }
+    });
+}
+
+fn queued(w: &World) -> u64 {
+    if w.lazy { (w.tx_cmd.max_capacity() - w.tx_cmd.capacity()) as u64 } else { w.inbox.len() as u64 }
 }
 
 fn alive(w: &World) -> u64 {
@@ -225,7 +253,7 @@ fn dump(c: &Case, w: &World) -> Value {
         .unwrap_or(NF);
     json!({
         "idx": idx, "idx2": idx2, "contains": contains, "bydist": bydist, "far": far, "far_key": far_key,
-        "cache": cache, "files": files, "chan": chan, "ntasks": alive(w),
+        "cache": cache, "files": files, "chan": chan, "chan_count": queued(w), "ntasks": alive(w),
         "range": rs::responsible_distance_range(s).map(|d| d.to_string()),
         "range2": rs::get_farthest_replication_distance(s).map(|d| d.to_string()),
         "pay": rs::received_payment_count(s) as u64, "started": started, "metrics": metrics, "gets": gets,
@@ -278,8 +306,9 @@ fn crash(c: &mut Case, w: World, tears: &[(usize, u64)]) -> World {
             waiting = still;
         }
     }
-    let World { rt, store, rx_cmd, _rx_evt, inbox } = w;
+    let World { rt, store, rx_cmd, tx_cmd, _rx_evt, inbox, lazy: _ } = w;
     drop(store);
+    drop(tx_cmd);
     drop(rx_cmd);
     drop(_rx_evt);
     drop(inbox);
@@ -319,6 +348,8 @@ fn run_hist(case: &Value, base: &Path, serial: u64) -> Value {
         peer,
         max_records: case["cfg"]["max_records"].as_u64().unwrap() as usize,
         cache_size: case["cfg"]["cache_size"].as_u64().unwrap() as usize,
+        max_value_bytes: case["cfg"].get("max_value_bytes").and_then(|x| x.as_u64()).map(|x| x as usize),
+        chan_cap: case["cfg"].get("chan_cap").and_then(|x| x.as_u64()).unwrap_or(100_000) as usize,
         hashes: vals.iter().map(|v| XorName::from_content(v)).collect(),
         names: keys.iter().map(rs::filename_of).collect(),
         keys,
@@ -393,49 +424,64 @@ fn run_hist(case: &Value, base: &Path, serial: u64) -> Value {
             }
             "settle" => {
                 // run everything to quiescence: pending tasks first-in first-out, then the oldest
-                // notification, until neither is left; the actions taken are reported (1 step, 0 deliver)
+                // notification, until neither is left; the actions taken are reported (1 step, 0 deliver).
+                // With a small channel: take a queued notification whenever there is one, else run a task.
                 let mut log: Vec<u64> = vec![];
                 let mut guard = 0;
-                while (alive(&w) > 0 || !w.inbox.is_empty()) && guard < 1_000_000 {
-                    guard += 1;
-                    if alive(&w) > 0 {
-                        step(&mut w);
-                        log.push(1);
-                    } else {
-                        let n = w.inbox.remove(0);
-                        let store = &mut w.store;
-                        w.rt.block_on(async {
-                            match n {
-                                LocalSwarmCmd::AddLocalRecordAsStored { key, record_type } => {
-                                    rs::mark_as_stored(store, key, record_type)
-                                }
-                                LocalSwarmCmd::RemoveFailedLocalRecord { key } => store.remove(&key),
-                                _ => {}
-                            }
-                        });
-                        drain(&mut w);
-                        log.push(0);
+                if w.lazy {
+                    loop {
+                        guard += 1;
+                        if guard > 1_000_000 { break; }
+                        if let Ok(n) = w.rx_cmd.try_recv() {
+                            handle_notification(&mut w, n);
+                            log.push(0);
+                        } else if alive(&w) > 0 {
+                            step(&mut w);
+                            log.push(1);
+                        } else {
+                            break;
+                        }
+                    }
+                } else {
+                    while (alive(&w) > 0 || !w.inbox.is_empty()) && guard < 1_000_000 {
+                        guard += 1;
+                        if alive(&w) > 0 {
+                            step(&mut w);
+                            log.push(1);
+                        } else {
+                            let n = w.inbox.remove(0);
+                            handle_notification(&mut w, n);
+                            drain(&mut w);
+                            log.push(0);
+                        }
                     }
                 }
                 extra = json!(log);
                 json!(null)
             }
             "deliver" => {
-                let j = o["j"].as_u64().unwrap() as usize;
-                if j < w.inbox.len() {
-                    let n = w.inbox.remove(j);
-                    let store = &mut w.store;
-                    w.rt.block_on(async {
-                        match n {
-                            LocalSwarmCmd::AddLocalRecordAsStored { key, record_type } => {
-                                rs::mark_as_stored(store, key, record_type)
-                            }
-                            LocalSwarmCmd::RemoveFailedLocalRecord { key } => store.remove(&key),
-                            _ => {}
+                if w.lazy {
+                    // the driver takes the next command off the channel (first-in first-out)
+                    match w.rx_cmd.try_recv() {
+                        Ok(n) => {
+                            let code = match &n {
+                                LocalSwarmCmd::AddLocalRecordAsStored { key, record_type } => json!([c.type_code(record_type), c.kix(key)]),
+                                LocalSwarmCmd::RemoveFailedLocalRecord { key } => json!([NF, c.kix(key)]),
+                                _ => json!([NF + 1, NF]),
+                            };
+                            handle_notification(&mut w, n);
+                            json!({"delivered": code})
                         }
-                    });
+                        Err(_) => json!({"delivered": null}),
+                    }
+                } else {
+                    let j = o["j"].as_u64().unwrap() as usize;
+                    if j < w.inbox.len() {
+                        let n = w.inbox.remove(j);
+                        handle_notification(&mut w, n);
+                    }
+                    json!(null)
                 }
-                json!(null)
             }
             "set_range_at" => {
                 // range = distance of key k plus delta (-1, 0, +1), computed from the real distance
